@@ -43,7 +43,9 @@ def scen_specs(draw, tier):
     return {"crystal": cs, "key": draw(keys), "n": draw(st.sampled_from([[1, 1, 1], [2, 1, 1], [1, 1, 2], [2, 2, 1], [2, 2, 2], [3, 1, 1]])),
             "dense_svecs": draw(st.booleans()), "compact": draw(st.booleans()), "nac": draw(st.sampled_from(["none", "wang", "gonze"])),
             "mesh": draw(st.lists(st.integers(2, 4), min_size=3, max_size=3)), "ms": draw(st.booleans()),
-            "pmat": draw(st.sampled_from(["none", "auto"]))}
+            "pmat": draw(st.sampled_from(["none", "auto"])),
+            # now and then a supercell of a few hundred atoms: only the kernels of the constructor (size-dependent parallel regions)
+            "big": draw(st.sampled_from([0] * 7 + [1]))}
 
 
 def scenario(spec, recorder):
@@ -59,6 +61,19 @@ def scenario(spec, recorder):
     if c is None:
         return None
     cell = c["cell"]
+    if spec.get("big"):
+        k = 2
+        while len(cell) * k ** 3 < 130:
+            k += 1
+        recorder.install()
+        try:
+            try:
+                return Phonopy(cell, supercell_matrix=np.diag([k, k, k]), primitive_matrix=None if spec["pmat"] == "none" else "auto",
+                               store_dense_svecs=spec["dense_svecs"], log_level=0)
+            except RuntimeError:
+                return None
+        finally:
+            recorder.uninstall()
     if len(cell) * int(np.prod(spec["n"])) > 40:
         return None
     rng = rng_from(spec["key"])
@@ -197,7 +212,7 @@ def run_threads(spec):
             keys_.append(_rec_key(r))
         classes.append("k:" + r["name"])
     env.set_threads(4)
-    return Out(ok=True, nontrivial=bool(keys_), key=keys_, classes=sorted(set(classes)) + ["nac:" + spec["nac"]],
+    return Out(ok=True, nontrivial=bool(keys_), key=keys_, classes=sorted(set(classes)) + ["nac:" + spec["nac"]] + (["big_supercell"] if spec.get("big") else []),
                info={"n_cases": len(rec.records), "kernels": len(set(r["name"] for r in rec.records))})
 
 
